@@ -64,7 +64,8 @@ def dump (g : G) : String :=
   let opts := (List.range g.opts.length).map fun i =>
     (if (g.opt i).type == 0 then (if (g.valOf i).isNull then "~" else "1") else valRepr (g.valOf i)) ++ "/" ++ toString (g.setter i) ++ "/" ++ b01 (isDefault g i) ++ b01 (isOn g i) ++ b01 (isUsed g i)
       ++ "/" ++ typed g i
-  "ok argn=" ++ toString n ++ " args=" ++ ",".intercalate args ++ " opts=" ++ ";".intercalate opts
+  let a0 := (if (getArg g 0).isSome then "x" else "~") ++ (if (getArg g (-1)).isSome then "x" else "~")
+  "ok argn=" ++ toString n ++ " args=" ++ ",".intercalate args ++ " a0=" ++ a0 ++ " opts=" ++ ";".intercalate opts
 
 def step (s : S) (line : String) : S × String :=
   if s.dead then (s, "fault") else
